@@ -88,7 +88,7 @@ func (a *ArgMax) Apply(inputs []tensor.Tensor) ([]tensor.Tensor, error) {
 
 	// The tensor.Argmax function returns data of type int, but according to
 	// the ONNX standard this operator should return int64.
-	backing, ok := reduced.Data().([]int)
+	backing, ok := ops.IfScalarToSlice(reduced.Data()).([]int)
 	if !ok {
 		return nil, ops.ErrTypeAssert("int", reduced.Dtype())
 	}
